@@ -31,8 +31,9 @@ def cond(draw):
     k = draw(st.sampled_from(["true", "false", "false", "expr", "expr"]))
     if k != "expr":
         return {"lit": k == "true"}
-    return {"ref": draw(st.sampled_from(BASE)), "op": draw(st.sampled_from(["==", "!=", "<", ">="])),
-            "rhs": draw(st.integers(0, 3))}
+    # a small pool on purpose: the same condition text recurs while the referenced node changes in between
+    return {"ref": draw(st.sampled_from(BASE[:2])), "op": draw(st.sampled_from(["==", "==", "!=", "<"])),
+            "rhs": draw(st.integers(0, 2))}
 
 
 def items(depth):
@@ -40,7 +41,9 @@ def items(depth):
     leaf = st.one_of(
         st.tuples(st.just("def"), name, st.integers(0, 99), st.booleans()),   # (def, name, value, followed by !constant)
         st.tuples(st.just("def"), name, st.integers(0, 99), st.just(False)),
-        st.tuples(st.just("mod"), st.sampled_from(BASE), st.integers(0, 3)),
+        st.tuples(st.just("mod"), st.sampled_from(BASE), st.integers(0, 2)),
+        st.tuples(st.just("mod"), st.sampled_from(BASE[:2]), st.integers(0, 2)),
+        st.tuples(st.just("unit")),                       # '$unit uN = 2 cm' directly followed by a node that uses it
     ).map(list)
     if depth == 0:
         return st.lists(leaf, min_size=0, max_size=3)
@@ -65,9 +68,16 @@ def items(depth):
 
 @st.composite
 def program(draw, depth):
-    base = [draw(st.integers(0, 3)) for _ in BASE]
+    base = [draw(st.integers(0, 2)) for _ in BASE]
     body = draw(items(draw(st.integers(1, depth))))
-    stray = draw(st.sampled_from([None] * 7 + ["else_end", "end_end", "else_start", "end_start", "else_after_closed"]))
+    if draw(st.integers(0, 3)) == 0:
+        # the same condition text evaluated twice with the referenced node re-assigned in between
+        c = draw(cond())
+        if "ref" in c:
+            blk = lambda n: ["block", [{"cond": dict(c), "items": [["def", n, 1, False]]}], [["def", n, 2, False]], True]
+            body = body + [blk("r1"), ["mod", c["ref"], draw(st.integers(0, 2))], blk("r2")]
+    stray = draw(st.sampled_from([None] * 9 + ["else_end", "end_end", "else_start", "end_start", "else_after_closed",
+                                               "else_in_clause", "else_in_group", "else_deeper_after_node"]))
     return {"base": base, "items": body, "widths": draw(st.lists(st.integers(1, 4), min_size=6, max_size=6)), "stray": stray}
 
 
@@ -93,6 +103,9 @@ def render_items(its, level, widths, out):
                 out.append(f"{ind}{' ' * widths[level]}!constant")
         elif k == "mod":
             out.append(f"{ind}{it[1]} = {it[2]}")
+        elif k == "unit":
+            out.append(f"{ind}$unit u{it[1]} = 2 cm")
+            out.append(f"{ind}uv{it[1]} float = 3 [u{it[1]}]")
         elif k == "group":
             out.append(f"{ind}{it[1]}")
             render_items(it[2], level + 1, widths, out)
@@ -124,6 +137,12 @@ def render(case):
         out = out + body + ["last int = 1", "@end"]
     elif s == "else_after_closed":
         out = out + body + ["@case true", "  q1 int = 1", "@end", "@else", "  q2 int = 2"]
+    elif s == "else_in_clause":
+        out = out + body + ["@case true", "  @else", "    q1 int = 1", "@end"]
+    elif s == "else_in_group":
+        out = out + body + ["grp", "  @else", "    q1 int = 1"]
+    elif s == "else_deeper_after_node":
+        out = out + body + ["@case true", "  q0 int = 1", "  @else", "    q1 int = 2", "@end"]
     else:
         out = out + body
     return "\n".join(out)
@@ -159,6 +178,10 @@ def interpret(case):
             elif k == "mod":
                 if active:
                     model[it[1]] = it[2]
+            elif k == "unit":
+                if active:
+                    model[prefix + f"uv{it[1]}"] = 3.0
+                    const.setdefault(prefix + f"uv{it[1]}", False)
             elif k == "group":
                 walk(it[2], prefix + it[1] + ".", active)
             else:
@@ -219,6 +242,8 @@ def _redefinition_of_constant(case):
             elif k == "mod":
                 if active:
                     model[it[1]] = it[2]
+            elif k == "unit":
+                pass
             elif k == "group":
                 walk(it[2], prefix + it[1] + ".", active)
             else:
@@ -242,7 +267,9 @@ def _normalise(its, in_group, counter=None):
     counter = counter if counter is not None else itertools.count()
     out = []
     for it in its:
-        if it[0] == "def" and it[3]:
+        if it[0] == "unit":
+            out.append(["unit", next(counter)])
+        elif it[0] == "def" and it[3]:
             out.append(["def", f"k{next(counter)}", it[2], True])
         elif it[0] == "mod" and in_group:
             out.append(["def", "m" + it[1], it[2], False])
